@@ -219,7 +219,7 @@ def filtered_kwargs(ff: FuncFlow) -> List[Tuple[ast.Call, str]]:
   return out
 
 
-def truthiness_of_optional_numbers(fi: FuncInfo) -> List[Tuple[ast.AST, str]]:
+def truthiness_of_optional_numbers(fi: FuncInfo, repo: Optional[Repo] = None) -> List[Tuple[ast.AST, str]]:
   """Truthiness tests (if p / p or d / not p / p and ...) of a parameter annotated Optional[int] / Optional[float]: 0 is a value,
   not "unset". The pinned tree has none (20 truthiness tests of parameters, all on bool or Optional[Mapping])."""
   node = fi.node
@@ -230,10 +230,22 @@ def truthiness_of_optional_numbers(fi: FuncInfo) -> List[Tuple[ast.AST, str]]:
       names.add(a.arg)
   if not names:
     return []
-  # names rebound inside the function no longer hold the parameter
-  for x in ast.walk(node):
-    if isinstance(x, ast.Name) and isinstance(x.ctx, ast.Store) and x.id in names:
-      names.discard(x.id)
+  # a name rebound inside the function holds the parameter only where no rebinding reaches: decided per test with reaching definitions
+  rebound = {x.id for x in ast.walk(node) if isinstance(x, ast.Name) and isinstance(x.ctx, ast.Store) and x.id in names}
+  ff = None
+  if rebound and repo is not None:
+    try:
+      ff = FuncFlow.of(repo, fi)
+    except Exception:  # pylint: disable=broad-except
+      ff = None
+
+  def holds_param(t):
+    if t.id not in rebound:
+      return True
+    if ff is None:
+      return False
+    ds = ff.defs_for(t)
+    return bool(ds) and all(d.kind == 'param' for d in ds)
   out = []
   for x in ast.walk(node):
     tests = []
@@ -244,7 +256,7 @@ def truthiness_of_optional_numbers(fi: FuncInfo) -> List[Tuple[ast.AST, str]]:
     elif isinstance(x, ast.BoolOp):
       tests += x.values
     for t in tests:
-      if isinstance(t, ast.Name) and t.id in names:
+      if isinstance(t, ast.Name) and t.id in names and holds_param(t):
         out.append((t, t.id))
   return out
 
@@ -371,7 +383,7 @@ def check_forwarding(check, funcs, rule: str = 'R-FORWARD'):
       check.ob(rule + '.unused', fi, f'parameter {p}', False,
                f'parameter `{p}` of {fi.qualname} is never read (nor discarded with `del {p}`): what it configures is silently ignored',
                node=fi.node, exact=True)
-    for t, p in truthiness_of_optional_numbers(fi):
+    for t, p in truthiness_of_optional_numbers(fi, repo):
       if not rel(p):
         continue
       check.ob(rule + '.none-test', fi, f'truth test of {p}', False,
